@@ -44,6 +44,11 @@ BASES = {
                               ordered=True, add_missing_columns=True),
                       {"cols": [{"name": "a", "dtype": "int64", "values": [1, 2, 3]}, {"name": "q", "dtype": "int64", "values": [1, 2, 3]},
                                 {"name": "c", "dtype": "float64", "values": [1.5, 2.5, 3.5]}], "index": None}),
+    # two categorical columns with DIFFERENT parametrised categorical types (whatever is remembered about "the" categorical dtype of a
+    # container must be remembered per dtype object, not per dtype name)
+    "frame_categorical": (S.frame(cols=[S.comp(name="g", dtype="cat:p,q"), S.comp(name="h", dtype="cat:x,y"), S.comp(name="a", dtype="int64")]),
+                          {"cols": [{"name": "g", "dtype": "cat:p,q", "values": ["p", "q", "p"]}, {"name": "h", "dtype": "cat:x,y", "values": ["x", "y", "y"]},
+                                    {"name": "a", "dtype": "int64", "values": [1, 2, 3]}], "index": None}),
     # a coercing string Index (value-dependent dtype on an object index): stand-alone and under a SeriesSchema
     "index_parsing": (dict(S.comp(name="idx", dtype="str", coerce=True), kind="index"),
                       _t(index={"kind": "single", "values": ["p", "q", "r"], "dtype": "object", "name": "idx"})),
@@ -144,6 +149,8 @@ def schema_edits(spec, parsers=False, rich=True):
             eds.append(["addcheck", tid, chk])
         if rich:
             other = {"int64": ["float64", "str", "Int64"], "float64": ["int64"], "str": ["int64", "object"]}.get(c["dtype"], [])
+            if str(c["dtype"]).startswith("cat:"):
+                other = [c["dtype"].split(":")[0] + ":" + c["dtype"].split(":")[1] + ",zz", "category"]
             for d in other:
                 eds.append(["set", tid, "dtype", d])
             eds.append(["set", tid, "dtype", None])
@@ -260,7 +267,11 @@ def data_edits(table, rich=True):
     if rich:
         eds.append(["duplabel", names[0]])
     for c in table["cols"]:
-        for nd in {"int64": ["float64", "object", "Int64", "numstr", "Int64na"], "object": ["string"], "float64": []}.get(c["dtype"], []):
+        cat_alts = []
+        if str(c["dtype"]).startswith("cat:"):
+            base_c = c["dtype"].split(":")[1]
+            cat_alts = [x for x in (f"cat:{base_c},zz", f"cat:{base_c}:o", "object") if x != c["dtype"]]
+        for nd in {"int64": ["float64", "object", "Int64", "numstr", "Int64na"], "object": ["string"], "float64": []}.get(c["dtype"], cat_alts):
             if nd in ("Int64", "string") and not rich:
                 continue
             eds.append(["coldtype", c["name"], nd])   # "Int64na": nullable-extension integers holding one <NA>
